@@ -31,6 +31,14 @@ it was, and afterwards growing / shrinking / clearing the argument does not move
 (two OMDs are compared as complete objects).  Mappings derived by counts / inverted / sorted / sortedvalues are checked
 the same way in the read battery.  A fourth search uses tuple keys and values (empty tuple, 2-tuple).
 
+Result objects are the caller's own ("result-is-independent", in the read battery of every state): every read that hands
+out an object - keys/values/items (multi on/off), getlist (key present / absent, with and without a default), get with a
+default, todict (multi on/off, and the value lists inside), counts, inverted, sorted, sortedvalues - is called, the
+result is changed in place (append, sort, reverse, del, clear, extend; item assignment and deletion; a returned mapping
+is grown and emptied), and then the mapping itself, the same call again, every such read of the same mapping, of a
+mapping built afterwards from the same pairs and of an empty mapping must equal the model.  Defaults are passed as fresh
+mutable objects.  The list a mutator hands out (popall) is changed in place and the state oracle is repeated.
+
 A directed part (run_cyclic, exhaustive over its own small space, not part of the BFS because such values are not
 hashable state components) stores values that refer back to the mapping - the mapping itself, a list / tuple / dict
 holding it, a child mapping with a parent reference, one list shared by several pairs - and compares, by object
@@ -390,6 +398,34 @@ def plain_mutations(shape, a):
     def shrink():
         (a._d if shape == 'keysobj' else a).clear()
     return grow, shrink
+
+
+def guard_call(fn):
+    try:
+        return plain(fn())
+    except Exception as e:
+        return 'raised ' + type(e).__name__
+
+
+def scribble(r):
+    """The in-place changes a caller may make to a result object it was handed (none for immutable results); the
+    object is left in a form no read of the explored mappings can give ('Z' is neither a key nor a value)."""
+    if type(r) is list:
+        for f in (lambda: r.append('Z'), lambda: r.sort(key=repr), r.reverse, lambda: r.__delitem__(0), r.clear,
+                  lambda: r.extend(('Z', 'Z'))):
+            _quiet(f)
+    elif type(r) is dict:
+        for v in list(r.values()):
+            if type(v) is list:
+                scribble(v)
+        for k in list(r)[:1]:
+            _quiet(r.__delitem__, k)
+        for k in list(r) + ['zz']:
+            r[k] = 'Z'
+    elif isinstance(r, dict):                              # a mapping of the class under test
+        for mutate in omd_mutations(r):
+            _quiet(mutate)
+        _quiet(r.add, 'zz', 'Z')
 
 
 def copy_fn(op):
@@ -857,6 +893,18 @@ class Spec:
             if s is not None:
                 bad('op', s[0], s[1], s[2], tags)
                 ok = False
+        if ok and r_i[0] == 'ok' and type(r_i[1]) in (list, dict):
+            # a result object handed out by a mutator (popall) is the caller's: changing it in place moves nothing
+            def fresh():
+                return guard_call(lambda: (cls().getlist('zz'), cls().items(multi=True), cls().todict(multi=True)))
+            before = fresh()                               # (already wrong: some other result leaked, reported there)
+            scribble(r_i[1])
+            s = structure(d2, P2)
+            if s is not None:
+                bad('op', 'result-is-independent|mapping-moved', s[1], s[2], tags)
+                ok = False
+            elif before == ([], [], {}) and fresh() != before:
+                bad('op', 'result-is-independent|later-read(empty-mapping)', before, fresh(), tags)
         if ok and type(d2) is not cls:
             bad('op', 'type', cls.__name__, type(d2).__name__)
             ok = False
@@ -944,6 +992,37 @@ class Spec:
                     bad('op', 'not-independent(%s-moved)' % ('source' if side == 0 else 'copy'), before, canon(oth))
                     return False
         return True
+
+    # ------------------------------------------------------------------------------------------
+    def result_reads(self, byval):
+        """Every read that hands out a result object: (name, key or None, call on a mapping, model value from (pairs,
+        keys, visible values, value lists)).  Defaults are fresh mutable objects: a miss hands out the caller's own."""
+        out = [('keys', None, lambda o: o.keys(), lambda Q, ks, vis, ls: ks),
+               ('keys(multi)', None, lambda o: o.keys(multi=True), lambda Q, ks, vis, ls: [k for k, _ in Q]),
+               ('values', None, lambda o: o.values(), lambda Q, ks, vis, ls: [vis[k] for k in ks]),
+               ('values(multi)', None, lambda o: o.values(multi=True), lambda Q, ks, vis, ls: [v for _, v in Q]),
+               ('items', None, lambda o: o.items(), lambda Q, ks, vis, ls: [(k, vis[k]) for k in ks]),
+               ('items(multi)', None, lambda o: o.items(multi=True), lambda Q, ks, vis, ls: list(Q)),
+               ('todict', None, lambda o: o.todict(), lambda Q, ks, vis, ls: dict(vis)),
+               ('todict(multi)', None, lambda o: o.todict(multi=True),
+                lambda Q, ks, vis, ls: {k: list(v) for k, v in ls.items()}),
+               ('counts', None, lambda o: o.counts(), lambda Q, ks, vis, ls: [(k, len(ls[k])) for k in ks]),
+               ('inverted', None, lambda o: o.inverted(), lambda Q, ks, vis, ls: [(v, k) for k, v in Q]),
+               ('sorted', None, lambda o: o.sorted(), lambda Q, ks, vis, ls: sorted(Q)),
+               ('sorted(key,reverse)', None, lambda o: o.sorted(key=byval, reverse=True),
+                lambda Q, ks, vis, ls: sorted(Q, key=byval, reverse=True)),
+               ('sortedvalues', None, lambda o: o.sortedvalues(), lambda Q, ks, vis, ls: m_sortedvalues(Q, False)),
+               ('sortedvalues(reverse)', None, lambda o: o.sortedvalues(reverse=True),
+                lambda Q, ks, vis, ls: m_sortedvalues(Q, True))]
+        for k in self.keys + ('zz',):
+            out += [('getlist', k, lambda o, k=k: o.getlist(k), lambda Q, ks, vis, ls, k=k: list(ls.get(k, []))),
+                    ('getlist(default)', k, lambda o, k=k: o.getlist(k, ['d']),
+                     lambda Q, ks, vis, ls, k=k: list(ls.get(k, ['d']))),
+                    ('get(default)', k, lambda o, k=k: o.get(k, ['d']), lambda Q, ks, vis, ls, k=k: vis.get(k, ['d']))]
+        # the popping methods with a default are reads when the key is absent: they hand out the caller's default
+        for nm, meth in (('pop(default)', 'pop'), ('popall(default)', 'popall'), ('poplast(key,default)', 'poplast')):
+            out.append((nm, 'zz', lambda o, meth=meth: getattr(o, meth)('zz', ['d']), lambda Q, ks, vis, ls: ['d']))
+        return out
 
     # ------------------------------------------------------------------------------------------
     def battery(self, d, P, bad):
@@ -1103,6 +1182,55 @@ class Spec:
                     _quiet(mutate)
             return canon(d) == k0
         R('derived-mapping-is-independent', derived, True)
+
+        # ---- every result object is the caller's own: the caller changes it in place (append / sort / del / clear /
+        # item assignment; a returned mapping is grown and emptied), and neither the mapping, nor a later call of the
+        # same read, nor any read of another mapping (same pairs, built afterwards; an empty one) shows it
+        def norm(x):
+            if isinstance(x, dict) and type(x) is not dict:           # (its structure: checked by the reads above)
+                return guard(lambda: list(x.items(multi=True))) if type(x) is cls else omdval(x)
+            return plain(x)
+
+        def call(fn, o):
+            try:
+                return True, fn(o)
+            except Exception as e:
+                return False, 'raised ' + type(e).__name__
+
+        result_reads = self.result_reads(byval)
+        wants = {}
+        for Q in (P, []):
+            qk, qv, ql = m_keys(Q), m_visible(Q), m_lists(Q)
+            wants[bool(Q)] = [(nm if k is None else '%s[%s]' % (nm, 'hit' if k in qv else 'miss'),
+                               guard(lambda: want(Q, qk, qv, ql))) for nm, k, _, want in result_reads]
+        sound = []
+        for i, (_, _, fn, _) in enumerate(result_reads):
+            nm, want = wants[bool(P)][i]
+            ok, r = call(fn, d)
+            if not ok or norm(r) != want:
+                continue                                   # a read that is wrong by itself is reported above
+            sound.append((i, fn))
+            scribble(r)
+            got = norm(call(fn, d)[1])
+            if got != want:
+                bad('read', 'result-is-independent:%s|second-call' % nm, want, got)
+        if canon(d) != k0:
+            moved = canon(d)
+            for i, fn in sound:                            # which result was it?  (each on a mapping of its own)
+                o = build_omd(P)
+                ko = canon(o)
+                scribble(call(fn, o)[1])
+                if canon(o) != ko:
+                    bad('read', 'result-is-independent:%s|mapping-moved' % wants[bool(P)][i][0], ko, canon(o))
+                    return
+            bad('read', 'result-is-independent|mapping-moved', k0, moved)
+            return
+        for where, o, Q in (('same-mapping', d, P), ('other-mapping', build_omd(P), P), ('empty-mapping', cls(), [])):
+            for i, fn in sound:
+                nm, want = wants[bool(Q)][i]
+                got = norm(call(fn, o)[1])
+                if got != want:
+                    bad('read', 'result-is-independent:%s|later-read(%s)' % (nm, where), want, got)
         if canon(d) != k0:
             bad('read', 'reads-changed-the-state', k0, canon(d))
 
